@@ -33,12 +33,13 @@ class Graph:
         self.edges += len(rec["succ"])
 
 
-def generate(ctx, seed_recs, ply, label="graph", timeout=7200):
+def generate(ctx, seed_recs, ply, label="graph", timeout=7200, by_position=False):
     """Run Oracle_Graph from the seeds; returns a Graph (seed indices are 1-based positions in seed_recs)."""
     sp = write_ndjson(ctx.path(label + "_seeds.ndjson"), seed_recs)
-    cfg = tlc.write_cfg("%s_%s_%d.cfg" % (label, ctx.prop, os.getpid()), GRAPH_CFG.format(ply=ply))
+    cfg = tlc.write_cfg("%s_%s_%d.cfg" % (label, ctx.prop, os.getpid()), GRAPH_CFG.format(ply=ply) + ("VIEW PosView\n" if by_position else ""))
     out = ctx.path(label + ".tlcout")
-    r = ctx.run_tlc("Oracle_Graph", cfg, env={"SEEDS": sp}, workers=16, out_path=out, timeout=timeout)
+    # by_position: one record per position at its minimal distance; needs strict BFS order => one worker, one seed
+    r = ctx.run_tlc("Oracle_Graph", cfg, env={"SEEDS": sp}, workers=1 if by_position else 16, out_path=out, timeout=timeout)
     os.unlink(cfg)
     if r.violated:
         raise ToolError("graph generation stopped: %s\n%s" % (r.violated, r.tail))
@@ -48,7 +49,7 @@ def generate(ctx, seed_recs, ply, label="graph", timeout=7200):
             if line.startswith('"'):
                 g.add(tlc.decode_record_line(line.rstrip("\n")))
     os.unlink(out)
-    if g.records != r.distinct:
+    if g.records != r.distinct and not by_position:
         raise ToolError("graph: %d records for %d states" % (g.records, r.distinct))
     log("%s: Oracle_Graph %s: %d states, %d edges to ply %d in %.1fs" % (ctx.prop, label, g.records, g.edges, ply, r.wall))
     return g
